@@ -32,6 +32,7 @@ import (
 	"sigs.k8s.io/controller-runtime/pkg/client"
 
 	xpv1 "github.com/crossplane/crossplane-runtime/apis/common/v1"
+	"github.com/crossplane/crossplane-runtime/pkg/fieldpath"
 	"github.com/crossplane/crossplane-runtime/pkg/reconciler/managed"
 	"github.com/crossplane/crossplane-runtime/pkg/resource"
 	"github.com/crossplane/crossplane-runtime/pkg/resource/unstructured/composed"
@@ -82,6 +83,9 @@ func TestVerifReplay(t *testing.T) {
 				return cd
 			}
 			var writes []string
+			var statusPatched bool
+			var patchedConditions []string
+			var patchedNote string
 			refsPersisted := false
 			var persistedRefs []string
 			faulted := false
@@ -130,8 +134,15 @@ func TestVerifReplay(t *testing.T) {
 					writes = append(writes, fmt.Sprintf("apply %s (refs persisted: %v)", o.GetName(), refsPersisted))
 					return hit("patch-composed")
 				},
-				MockStatusPatch: func(_ context.Context, _ client.Object, _ client.Patch, _ ...client.SubResourcePatchOption) error {
+				MockStatusPatch: func(_ context.Context, o client.Object, _ client.Patch, _ ...client.SubResourcePatchOption) error {
 					writes = append(writes, "status-patch-xr")
+					if u, ok := o.(*composite.Unstructured); ok {
+						statusPatched = true
+						for _, cnd := range u.GetConditions() {
+							patchedConditions = append(patchedConditions, string(cnd.Type)+"="+string(cnd.Status))
+						}
+						patchedNote, _ = fieldpath.Pave(u.Object).GetString("status.note")
+					}
 					return nil
 				},
 			}
@@ -172,6 +183,14 @@ func TestVerifReplay(t *testing.T) {
 				}
 				// like SDK functions: pass the desired state it was handed through, add its own
 				d := &fnv1.State{Resources: map[string]*fnv1.Resource{}, Composite: req.GetDesired().GetComposite()}
+				if i == 0 {
+					// the first function also writes the XR's status - a field of its own, and (which
+					// it has no business doing) a Ready condition
+					d.Composite = &fnv1.Resource{Resource: MustStruct(map[string]any{"apiVersion": "example.org/v1", "kind": "XThing", "status": map[string]any{
+						"note":       "written-by-the-function",
+						"conditions": []any{map[string]any{"type": "Ready", "status": "True", "reason": "Available", "lastTransitionTime": "2024-01-01T00:00:00Z"}},
+					}})}
+				}
 				for k, v := range req.GetDesired().GetResources() {
 					d.Resources[k] = v
 				}
@@ -303,6 +322,12 @@ func TestVerifReplay(t *testing.T) {
 				if !found || len(persistedRefs) != len(pl) {
 					t.Fatalf("VERIF-REPRODUCED: %s: persisted references %v do not name every desired resource (%d desired, \"keep\" among them)", desc, persistedRefs, len(pl))
 				}
+			}
+			if statusPatched && len(patchedConditions) > 0 {
+				t.Fatalf("VERIF-REPRODUCED: %s: a function returned a desired XR whose status carries a Ready=True condition, and the status patch applied to the XR carries conditions %v: the function wrote a system condition directly", desc, patchedConditions)
+			}
+			if statusPatched && patchedNote != "written-by-the-function" {
+				t.Fatalf("VERIF-REPRODUCED: %s: the status field the function set on the desired XR is not in the status patch (status.note = %q)", desc, patchedNote)
 			}
 			if err == nil && len(res.Composed) != len(pl) {
 				t.Fatalf("VERIF-REPRODUCED: %s: %d desired resources but %d reported (an unapplied resource must be reported as not synced)", desc, len(pl), len(res.Composed))
